@@ -59,6 +59,8 @@ def load_prop(prop: str):
 def _run_indices(prop: str, base_seed: int, tier: str, indices: List[int], want_samples: int):
     from sim.core import rng_for, derive_seed, CleanArmFailed, RunResult
     mod = load_prop(prop)
+    import sim.core as _core
+    _core.CURRENT_BASE_SEED = base_seed
     out = []
     for idx in indices:
         try:
